@@ -127,6 +127,27 @@ def structural():
         out.append((f"ret2{tn}", A.prog([], [A.func("f0", [("p0", t)], t, A.block([A.ret(B("+", x, one)), A.ret(x)]), True)])))
         out.append((f"ret3{tn}", A.prog([], [A.func("f0", [("p0", t)], t, A.block([A.if_(B(">", x, one), A.block([A.ret(one), A.ret(x)]), A.block([A.ret(x)])), A.ret(B("*", x, one))]), True)])))
         out.append((f"retloop{tn}", A.prog([], [A.func("f0", [("p0", t)], t, A.block([A.decl("i", INT, L(0)), A.while_(B("<", V("i"), L(3)), A.block([A.if_(B(">", x, one), A.block([A.ret(x)])), A.estmt(A.asg(V("i"), B("+", V("i"), L(1))))])), A.ret(one)]), True)])))
+    # long sums: body sizes sweep across 128 bytes and the number of locals across 128 (three term shapes shift the sizes by single bytes)
+    for k in list(range(18, 34)) + [60, 64, 65, 66, 70]:
+        for nm, term in (("p", lambda j: V("p0")), ("c1", lambda j: L(1 + j % 3)), ("c2", lambda j: L(200 + j))):
+            e = V("p0")
+            for j in range(k):
+                e = B("+", e, term(j))
+            out.append((f"sum{nm}{k}", A.prog([], [A.func("f0", [("p0", INT)], INT, A.block([A.ret(e)]), True)])))
+    # parameters without a name in front of named ones of another type
+    out.append(("unnamed1", A.prog([], [A.func("f0", [("unnamed_0", INT), ("b", FLOAT)], FLOAT, A.block([A.ret(B("*", V("b"), V("b")))]), True)])))
+    out.append(("unnamed2", A.prog([], [A.func("f0", [("a", FLOAT), ("unnamed_1", INT), ("c", INT)], INT, A.block([A.ret(B("+", V("c"), B("<", V("a"), A.lit_f(1, 1))))]), True)])))
+    out.append(("unnamed3", A.prog([], [A.func("f0", [("unnamed_0", FLOAT), ("b", INT)], INT, A.block([A.ret(B("*", V("b"), L(3)))]), True)])))
+    # float literals beyond the single-precision range (refused today: the writer cannot encode them).  Literals inside the range and
+    # multi-step expressions are left out on purpose: the VM computes in double precision, so an intermediate result may overflow or
+    # round differently in single precision - no statement promises more than agreement on exactly representable computations
+    for nm, raw in (("over", "1e39"), ("over2", "4e38")):
+        lit = {"k": "lit", "t": "float", "raw": raw}
+        out.append((f"frange*{nm}", A.prog([], [A.func("f0", [("p0", FLOAT)], FLOAT, A.block([A.ret(B("*", V("p0"), lit))]), True)])))
+        out.append((f"frange/{nm}", A.prog([], [A.func("f0", [("p0", FLOAT)], FLOAT, A.block([A.ret(B("/", V("p0"), lit))]), True)])))
+    # signed division by powers of two (negative dividends round toward zero)
+    for d in (2, 4, 8, 16, 1024):
+        out.append((f"divpow{d}", A.prog([], [A.func("f0", [("p0", INT)], INT, A.block([A.ret(B("+", B("/", V("p0"), L(d)), B("/", B("-", V("p0"), L(3)), L(d))))]), True)])))
     # the remainder operator on ints and uints (refused by the backend today; if it is ever translated it has to agree with the VM)
     for t, tn in ((INT, "i"), (A.UINT, "u")):
         out.append((f"mod{tn}", A.prog([], [A.func("f0", [("p0", t), ("p1", t)], t, A.block([A.ret(B("+", B("*", B("%", V("p0"), V("p1")), L(10)), B("/", V("p0"), V("p1"))))]), True)])))
